@@ -53,14 +53,14 @@ Fresh(n) == [k \in 1..n |-> nid + k - 1]   \* ids of n new item objects
 
 CallConstruct(i, ls) ==
   LET xs == [k \in 1..Len(ls) |-> [id |-> nid + k - 1, label |-> ls[k], good |-> TRUE, val |-> 0]]
-      r  == AddSeq([ex |-> TRUE, items |-> <<>>, chans |-> <<>>, aux |-> 0, szok |-> TRUE], xs, <<>>, 1)
+      r  == AddSeq([ex |-> TRUE, items |-> <<>>, chans |-> <<>>, aux |-> 0, szok |-> TRUE, lenok |-> TRUE], xs, <<>>, 1)
   IN [o |-> [op |-> "construct", i |-> i, xs |-> xs, share_ok |-> FALSE], w2 |-> [w EXCEPT ![i] = r.inst], res |-> OkRes(<<>>), used |-> Len(ls)]
 
 CallDecode(i, j) ==
   LET a == w[i]
       d == [ex |-> TRUE, items |-> [k \in 1..Len(a.items) |-> [Item(nid + k - 1, a.items[k].label) EXCEPT !.val = a.items[k].val]],
             chans |-> a.chans,
-            aux |-> a.aux, szok |-> TRUE]
+            aux |-> a.aux, szok |-> TRUE, lenok |-> TRUE]
   IN [o |-> [op |-> "decode", i |-> i, j |-> j, share_ok |-> FALSE], w2 |-> [w EXCEPT ![j] = d], res |-> OkRes(<<>>), used |-> Len(a.items)]
 
 CallAdd(i, l, good, c) ==
@@ -125,7 +125,7 @@ CallEdit(i, pos) ==
    w2 |-> [w EXCEPT ![i].items[pos].val = 1 - @]]
 \* i takes over the items of j (in the model: copies with fresh identities)
 CallAssignFrom(i, j) ==
-  [o |-> [op |-> "assign_from", i |-> i, j |-> j, share_ok |-> TRUE], res |-> OkRes(<<>>), used |-> Len(w[j].items),
+  [o |-> [op |-> "assign_from", i |-> i, j |-> j, share_ok |-> TRUE, compat |-> TRUE], res |-> OkRes(<<>>), used |-> Len(w[j].items),
    w2 |-> [w EXCEPT ![i].items = [k \in 1..Len(w[j].items) |-> [w[j].items[k] EXCEPT !.id = nid + k - 1]]]]
 CallPoke(i) == [o |-> [op |-> "poke", i |-> i, share_ok |-> FALSE], w2 |-> w, res |-> OkRes(<<>>), used |-> 0]
 CallEncode(i) ==
